@@ -455,6 +455,12 @@ pub fn parse_date_yymmdd(input: &str) -> Result<NaiveDate, ParseError> {
         });
     }
 
+    if !input.bytes().all(|b| b.is_ascii_digit()) {
+        return Err(ParseError::InvalidFormat {
+            message: "Date must contain only digits".to_string(),
+        });
+    }
+
     let year = input[0..2]
         .parse::<u32>()
         .map_err(|_| ParseError::InvalidFormat {
@@ -490,6 +496,12 @@ pub fn parse_date_yyyymmdd(input: &str) -> Result<NaiveDate, ParseError> {
         });
     }
 
+    if !input.bytes().all(|b| b.is_ascii_digit()) {
+        return Err(ParseError::InvalidFormat {
+            message: "Date must contain only digits".to_string(),
+        });
+    }
+
     let year = input[0..4]
         .parse::<i32>()
         .map_err(|_| ParseError::InvalidFormat {
@@ -522,6 +534,12 @@ pub fn parse_time_hhmm(input: &str) -> Result<NaiveTime, ParseError> {
         });
     }
 
+    if !input.bytes().all(|b| b.is_ascii_digit()) {
+        return Err(ParseError::InvalidFormat {
+            message: "Time must contain only digits".to_string(),
+        });
+    }
+
     let hour = input[0..2]
         .parse::<u32>()
         .map_err(|_| ParseError::InvalidFormat {
@@ -546,6 +564,12 @@ pub fn parse_datetime_yymmddhhmm(input: &str) -> Result<NaiveDateTime, ParseErro
                 "DateTime must be in YYMMDDHHMM format (10 digits), found {} characters",
                 input.len()
             ),
+        });
+    }
+
+    if !input.bytes().all(|b| b.is_ascii_digit()) {
+        return Err(ParseError::InvalidFormat {
+            message: "DateTime must contain only digits".to_string(),
         });
     }
 
